@@ -7,7 +7,10 @@ CHECK = {
   'id': 'C03',
   'level': 'model_checking',
   'rule': ('explicit-state BFS to fixpoint over histories of set(k,v)/rem(k)/resize(0)/A=copy(A)/assign-into-empty/assign-into-nonempty/'
-           'A=new(Tree,K,V,bindings...) and (alias=1) set(t, k, v) with k the key object yielded by the tree\'s own iteration '
+           'A=new(Tree,K,V,bindings...) and (alias=1) set(t, k, v) with k the key object yielded by the tree\'s own iteration; (cross=1) assign onto an empty and onto a filled tree that was constructed '
+           'with OTHER element types sharing exactly one side (pairs out of Int->Int, Int->Blob20, Int->Probe, Probe->Int, String->Probe, Probe->Blob20; both size directions), '
+           'with two trees also onto B; (table=1) a round trip Tree := Table := A through a filled Table of other element types; afterwards the target must have the '
+           'source\'s key/value types and slot sizes, the same bindings byte for byte, and the ledger must show its old contents finalised exactly once '
            '(rem of an absent key is a self-loop that must raise KeyError and change nothing) on one real Tree over the key universe '
            '0..N-1 (Int keys, String keys "k00".., Probe keys+values with a constructor/destructor ledger); a state is the concrete '
            'tree: exact shape + colours + keys + values (white-box, Tree.c compiled into the harness), so every reachable red-black '
@@ -50,14 +53,22 @@ CHECK = {
       T('probe5x2-asan', 'asan', 'keys=probe', 'vals=probe', 'prop=C05', 'nkeys=5', 'nvals=2', 'alias=1'),
       T('probe8-asan', 'asan', 'keys=probe', 'vals=probe', 'prop=C05', 'nkeys=8', 'nvals=1'),
       # key and value types of different sizes (8/20, 8/24, 24/8, 24/20 bytes): slot sizes, predecessor copy, assign/copy/constructor
-      T('int-blob9', 'base', 'keys=int', 'vals=blob', 'nkeys=9', 'nvals=1', 'alias=1'),
-      T('int-blob6x2', 'base', 'keys=int', 'vals=blob', 'nkeys=6', 'nvals=2', 'alias=1'),
-      T('int-blob8-asan', 'asan', 'keys=int', 'vals=blob', 'nkeys=8', 'nvals=1', 'alias=1'),
-      T('int-probe8', 'base', 'keys=int', 'vals=probe', 'nkeys=8', 'nvals=1', 'alias=1'),
-      T('probe-int8', 'base', 'keys=probe', 'vals=int', 'nkeys=8', 'nvals=1', 'alias=1'),
-      T('probe-int5x2-asan', 'asan', 'keys=probe', 'vals=int', 'nkeys=5', 'nvals=2', 'alias=1'),
-      T('str-probe8', 'base', 'keys=str', 'vals=probe', 'nkeys=8', 'nvals=1'),
-      T('probe-blob6x2', 'base', 'keys=probe', 'vals=blob', 'nkeys=6', 'nvals=2', 'alias=1'),
+      T('int-blob9', 'base', 'keys=int', 'vals=blob', 'nkeys=9', 'nvals=1', 'alias=1', 'cross=1', 'table=1'),
+      T('int-blob6x2', 'base', 'keys=int', 'vals=blob', 'nkeys=6', 'nvals=2', 'alias=1', 'cross=1', 'table=1'),
+      T('int-blob8-asan', 'asan', 'keys=int', 'vals=blob', 'nkeys=8', 'nvals=1', 'alias=1', 'cross=1', 'table=1'),
+      T('int-probe8', 'base', 'keys=int', 'vals=probe', 'nkeys=8', 'nvals=1', 'alias=1', 'cross=1', 'table=1'),
+      T('probe-int8', 'base', 'keys=probe', 'vals=int', 'nkeys=8', 'nvals=1', 'alias=1', 'cross=1', 'table=1'),
+      T('probe-int5x2-asan', 'asan', 'keys=probe', 'vals=int', 'nkeys=5', 'nvals=2', 'alias=1', 'cross=1', 'table=1'),
+      T('str-probe8', 'base', 'keys=str', 'vals=probe', 'nkeys=8', 'nvals=1', 'cross=1', 'table=1'),
+      T('probe-blob6x2', 'base', 'keys=probe', 'vals=blob', 'nkeys=6', 'nvals=2', 'alias=1', 'cross=1', 'table=1'),
+      # cross-type assignment family: targets constructed/filled with other element types (and a Table round trip)
+      T('int-int8-cross', 'base', 'keys=int', 'vals=int', 'nkeys=8', 'nvals=1', 'cross=1', 'table=1'),
+      T('int-int5x2-cross-asan', 'asan', 'keys=int', 'vals=int', 'nkeys=5', 'nvals=2', 'cross=1', 'table=1', 'alias=1'),
+      T('int-blob5x2-cross-asan', 'asan', 'keys=int', 'vals=blob', 'nkeys=5', 'nvals=2', 'cross=1', 'table=1'),
+      T('str-int6x2-cross', 'base', 'keys=str', 'vals=int', 'nkeys=6', 'nvals=2', 'cross=1', 'table=1'),
+      T('probe-probe6x2-cross', 'base', 'keys=probe', 'vals=probe', 'nkeys=6', 'nvals=2', 'cross=1', 'table=1'),
+      T('int-blob-two4-cross', 'base', 'keys=int', 'vals=blob', 'two=1', 'nkeys=4', 'nvals=1', 'cross=1'),
+      T('int-int-two4-cross-asan', 'asan', 'keys=int', 'vals=int', 'two=1', 'nkeys=4', 'nvals=1', 'cross=1'),
       T('ladder-int', 'base', 'mode=ladder', 'keys=int', 'sizes=1,2,3,7,16,33,100,300,1000,4000,10000'),
       T('ladder-str', 'base', 'mode=ladder', 'keys=str', 'sizes=100,1000,4000'),
       T('ladder-asan', 'asan', 'mode=ladder', 'keys=int', 'sizes=1,2,3,16,100,1000'),
@@ -76,15 +87,24 @@ CHECK = {
       T('probe6x2-asan', 'asan', 'keys=probe', 'vals=probe', 'prop=C05', 'nkeys=6', 'nvals=2', 'alias=1'),
       T('probe11-asan', 'asan', 'keys=probe', 'vals=probe', 'prop=C05', 'nkeys=11', 'nvals=1'),
       # key and value types of different sizes
-      T('int-blob12', 'base', 'keys=int', 'vals=blob', 'nkeys=12', 'nvals=1', 'alias=1'),
-      T('int-blob8x2', 'base', 'keys=int', 'vals=blob', 'nkeys=8', 'nvals=2', 'alias=1'),
-      T('int-blob11-asan', 'asan', 'keys=int', 'vals=blob', 'nkeys=11', 'nvals=1', 'alias=1'),
-      T('int-probe11', 'base', 'keys=int', 'vals=probe', 'nkeys=11', 'nvals=1', 'alias=1'),
-      T('probe-int11', 'base', 'keys=probe', 'vals=int', 'nkeys=11', 'nvals=1', 'alias=1'),
-      T('probe-int7x2-asan', 'asan', 'keys=probe', 'vals=int', 'nkeys=7', 'nvals=2', 'alias=1'),
-      T('str-probe11', 'base', 'keys=str', 'vals=probe', 'nkeys=11', 'nvals=1'),
-      T('str-probe7x2-asan', 'asan', 'keys=str', 'vals=probe', 'nkeys=7', 'nvals=2'),
-      T('probe-blob8x2', 'base', 'keys=probe', 'vals=blob', 'nkeys=8', 'nvals=2', 'alias=1'),
+      T('int-blob12', 'base', 'keys=int', 'vals=blob', 'nkeys=12', 'nvals=1', 'alias=1', 'cross=1', 'table=1'),
+      T('int-blob8x2', 'base', 'keys=int', 'vals=blob', 'nkeys=8', 'nvals=2', 'alias=1', 'cross=1', 'table=1'),
+      T('int-blob11-asan', 'asan', 'keys=int', 'vals=blob', 'nkeys=11', 'nvals=1', 'alias=1', 'cross=1', 'table=1'),
+      T('int-probe11', 'base', 'keys=int', 'vals=probe', 'nkeys=11', 'nvals=1', 'alias=1', 'cross=1', 'table=1'),
+      T('probe-int11', 'base', 'keys=probe', 'vals=int', 'nkeys=11', 'nvals=1', 'alias=1', 'cross=1', 'table=1'),
+      T('probe-int7x2-asan', 'asan', 'keys=probe', 'vals=int', 'nkeys=7', 'nvals=2', 'alias=1', 'cross=1', 'table=1'),
+      T('str-probe11', 'base', 'keys=str', 'vals=probe', 'nkeys=11', 'nvals=1', 'cross=1', 'table=1'),
+      T('str-probe7x2-asan', 'asan', 'keys=str', 'vals=probe', 'nkeys=7', 'nvals=2', 'cross=1', 'table=1'),
+      T('probe-blob8x2', 'base', 'keys=probe', 'vals=blob', 'nkeys=8', 'nvals=2', 'alias=1', 'cross=1', 'table=1'),
+      # cross-type assignment family
+      T('int-int11-cross', 'base', 'keys=int', 'vals=int', 'nkeys=11', 'nvals=1', 'cross=1', 'table=1'),
+      T('int-int7x2-cross-asan', 'asan', 'keys=int', 'vals=int', 'nkeys=7', 'nvals=2', 'cross=1', 'table=1', 'alias=1'),
+      T('int-blob7x2-cross-asan', 'asan', 'keys=int', 'vals=blob', 'nkeys=7', 'nvals=2', 'cross=1', 'table=1'),
+      T('str-int8x2-cross', 'base', 'keys=str', 'vals=int', 'nkeys=8', 'nvals=2', 'cross=1', 'table=1'),
+      T('probe-probe8x2-cross', 'base', 'keys=probe', 'vals=probe', 'nkeys=8', 'nvals=2', 'cross=1', 'table=1'),
+      T('int-blob-two6-cross', 'base', 'keys=int', 'vals=blob', 'two=1', 'nkeys=6', 'nvals=1', 'cross=1'),
+      T('int-int-two5-cross-asan', 'asan', 'keys=int', 'vals=int', 'two=1', 'nkeys=5', 'nvals=1', 'cross=1'),
+      T('str-probe-two5-cross', 'base', 'keys=str', 'vals=probe', 'two=1', 'nkeys=5', 'nvals=1', 'cross=1'),
       T('ladder-int', 'base', 'mode=ladder', 'keys=int', 'sizes=1,2,3,4,5,6,7,8,15,16,17,31,32,33,64,100,255,300,1000,4000,10000'),
       T('ladder-str', 'base', 'mode=ladder', 'keys=str', 'sizes=16,100,300,1000,4000,10000'),
       T('ladder-asan', 'asan', 'mode=ladder', 'keys=int', 'sizes=1,2,3,16,100,300,1000,4000'),
